@@ -69,4 +69,17 @@ CLAIMED['C18'] = dict(
          'variable + scheduler); unlock(offset,length) erase loop; held empty ranges.',
     technique='deductive verification: loop-free full-domain CBMC harnesses (ghost-index set invariant) on mechanically lowered real code',
     design='§6 C18')
+CLAIMED['C12'] = dict(
+    text='Proof (loop-free, all inputs) of the per-field kernel the (de)serializers bottom out in, lowered from /repo/rpc/serialize.h on '
+         'every run: slice::anchor with arbitrary wire-supplied offset/length yields a string inside the base buffer or an empty one; '
+         'string::sv and array::size/begin/end stay inside the field for every length including 0; DeserializerIOV::process_field(buffer&) '
+         'claims exactly the next n supplied bytes or fails cleanly (null, nothing consumed), and consumes nothing for an empty field; '
+         'SerializerIOV::process_field(buffer&) appends a non-empty field exactly once and never overruns a full vector; '
+         'CheckedMessage::validate_checksum accepts exactly when the received checksum equals the hash of the received bytes.  A native '
+         'run drives the real DeserializerIOV/SerializerIOV with hostile descriptors and honest fragmented round trips.',
+    note=TRUST + ' Not decided: the template traversal over message shapes (reduce/process_fields/FilterAlignedFields, nested messages, '
+         'sorted_map iteration), the whole-message round trip (induction over fields, not machine-checked), process_field(iovec_array&), '
+         'CRC collisions.  iovector::extract_front_continuous is an assumed contract (its view-level core is proved in C14).',
+    technique='deductive verification: loop-free full-domain CBMC harnesses on mechanically lowered real code; native replay on the real classes',
+    design='§6 C12')
 NA = {}
